@@ -16,7 +16,7 @@ for i in ids:
           "level_note":c['note'],"technique":c.get('technique',"contract-based deductive verification: weakest-precondition style VCs generated from go/ssa of the real functions under //@ contracts, discharged by z3/cvc5")})
 na=[{"property_id":i,"reason":claims['not_applicable'].get(i,"check not built yet (planned, see DESIGN.md §4)")} for i in ids if not any(c['property_id']==i for c in checks)]
 m={"version":1,"setup_cmd":"./setup.sh",
- "hooks":{"guard":"verif","enable":"contracts are comment-only files <pkg>/verif_contracts.go with //go:build verif; govc loads /repo with -tags=verif","baseline_off_cmd":"/verif/tools/baseline.sh /repo","source_commits":hooks,"add_only":True},
+ "hooks":{"guard":"verif","enable":"contracts are comment-only files <pkg>/verif_contracts*.go with //go:build verif; the only executable hooks are the harness files PVM/verif_hooks.go (dispatcher and step-pair harness for the single-step engine) and internal/types/verif_hooks*.go (codec round-trip harness), also //go:build verif; govc loads /repo with -tags=verif, the node is built without the tag","baseline_off_cmd":"/verif/tools/baseline.sh /repo","source_commits":hooks,"add_only":True},
  "engines":[{"name":"govc","path":"/verif/govc","serves_properties":[c['property_id'] for c in checks],"kind_free_text":"VC generator over go/ssa (forward symbolic execution, exact 64-bit machine arithmetic, heap regions, loop unrolling with unwinding checks or invariants) + SMT portfolio (z3 5.1.0, z3 4.8.12, cvc5 1.0) + model replay on the real code via go test -overlay"}],
  "checks":checks,"notes":claims.get('notes',''),"not_applicable":na}
 json.dump(m,open('/verif/MANIFEST.json','w'),indent=1)
